@@ -611,6 +611,15 @@ class IMMachine(FormatMachine):
     def model_from_observation(self, obs):
         return self.model_from_expected(None, obs)
 
+    def order_ambiguous(self, observed):
+        # C02/C08 quantify over cells whose images have DISTINCT paths (the writer sorts a cell by path)
+        for arches in observed["cells"].values():
+            for imgs in arches.values():
+                paths = [i["path"] for i in imgs]
+                if len(set(map(str, paths))) != len(paths):
+                    return True
+        return False
+
     def rebind(self, s):
         s.pool = {}
         if s.tainted:
